@@ -218,13 +218,16 @@ class C12(Spec):
                 "C12_refuted_load_order_matters_with_duplicate_module_names"]
     MODEL_OPS = {3302, 3304, 3312, 3314}
     builds = [("default", "dev"), ("default", "release")]
-    level_text = ("A hand-written Gallina model of ResolveScope / MultiModuleResolver (local first, then the first import listing "
-                  "the name, module matched by OID equality when the candidate has one, else by name; unbounded recursion on "
-                  "cyclic imports modelled as divergence) on top of the parser model is tied to the crate by differential "
-                  "execution of whole module sets (ops 3302/3304). Theorems: PARTIAL -- the lookup-level substitution lemmas "
-                  "(a reference bound to a literal resolves like the literal, for INTEGER bounds, SIZE bounds and DEFAULT values), "
-                  "the two error theorems, and vm_compute witnesses of the refuted classes; the lifting of the substitution "
-                  "lemma over the whole AST (C12_subst of DESIGN.md) is covered by the tie only.")
+    level_text = ('A hand-written Gallina model of ResolveScope / MultiModuleResolver (local first, then the first import listing '
+                  'the name, module matched by OID equality when the candidate has one, else by name; unbounded recursion on '
+                  'cyclic imports modelled as divergence) on top of the parser model is tied to the crate by differential '
+                  'execution of whole module sets (ops 3302/3304). Theorems (Front/{ResolveProofs,ResolveSubstProofs}.v): the '
+                  'substitution theorem lifted over the whole AST, modules and module sets (C12_subst_type/definition/module/all: '
+                  'replacing references by the literals they are bound to does not change the resolved model; C12_literalize_* '
+                  'give the substitution as a function and its completeness), unresolved / non-integer / negative-SIZE references '
+                  'are errors at type, module and set level, load-order irrelevance under unique_targets '
+                  '(C12_order_irrelevant_*), and vm_compute witnesses of the refuted classes (duplicate module names make load '
+                  'order matter).')
     rule = ("modules of the C07 generator; every non-empty kind of use site (INTEGER range bounds incl. the 0 of 0..MAX, SIZE "
             "numbers incl. SIZE(0..MAX), DEFAULT literals of kind integer/boolean/string/hstring/bstring); subsets of size 1, 2, 3, "
             "half, all; placement local / sibling with OID (import by OID+name, by name only, by OID only under another name) / "
